@@ -36,6 +36,8 @@ type Solver struct {
 	bin      string
 	tmo      int
 	fbCalls  int
+	nrestart int
+	durModel time.Duration
 	dump     *os.File // verdict queries for cross-solver diff
 }
 
@@ -85,6 +87,9 @@ func (s *Solver) send(l string) {
 }
 func (s *Solver) push() { s.send("(push)"); s.level++ }
 func (s *Solver) pop() {
+	if s.level == 0 {
+		return // the process was restarted underneath this scope
+	}
 	s.send("(pop)")
 	s.level--
 	for k, l := range s.defined {
@@ -171,8 +176,19 @@ func (s *Solver) Check(pc []*Term, extra *Term) string {
 	}
 	return r
 }
-func (s *Solver) checkSat() string {
+func (s *Solver) checkSat() (res string) {
 	t0 := time.Now()
+	defer func() {
+		if r := recover(); r != nil {
+			if _, ok := r.(solverDied); !ok {
+				panic(r)
+			}
+			s.restart()
+			s.queries++
+			s.nunk++
+			res = "unknown"
+		}
+	}()
 	s.send("(check-sat)")
 	line := s.readLine()
 	d := time.Since(t0)
@@ -199,12 +215,28 @@ func (s *Solver) checkSat() string {
 	}
 	return line
 }
+type solverDied struct{}
+
+// readLine returns the next non-empty output line. A watchdog kills a solver
+// process that does not answer within its time limit plus a grace period; the
+// caller then sees a solverDied panic, which checkSat/getValues turn into an
+// inconclusive ("unknown") answer after restarting the process.
 func (s *Solver) readLine() string {
 	s.in.Flush()
+	done := make(chan struct{})
+	go func() {
+		select {
+		case <-done:
+		case <-time.After(time.Duration(s.tmo)*time.Millisecond + 45*time.Second):
+			fmt.Fprintf(os.Stderr, "solver watchdog: no answer, killing solver (%s)\n", s.ctx)
+			s.cmd.Process.Kill()
+		}
+	}()
+	defer close(done)
 	for {
 		l, err := s.out.ReadString('\n')
 		if err != nil {
-			panic(fmt.Sprintf("solver died: %v", err))
+			panic(solverDied{})
 		}
 		l = strings.TrimSpace(l)
 		if l == "" {
@@ -214,8 +246,35 @@ func (s *Solver) readLine() string {
 	}
 }
 
-func (s *Solver) getValues(ts []*Term) []string {
-	res := make([]string, len(ts))
+// restart replaces a dead solver process by a fresh one with an empty stack.
+func (s *Solver) restart() {
+	s.cmd.Process.Kill()
+	s.cmd.Wait()
+	n := NewSolver(s.bin, s.tmo)
+	s.cmd, s.in, s.inRaw, s.out = n.cmd, n.in, n.inRaw, n.out
+	s.level = 0
+	s.defined, s.declared = map[int]int{}, map[string]int{}
+	s.asserted = nil
+	s.inModel = false
+	s.nrestart++
+}
+
+func (s *Solver) getValues(ts []*Term) (res []string) {
+	defer func() {
+		if r := recover(); r != nil {
+			if _, ok := r.(solverDied); !ok {
+				panic(r)
+			}
+			s.restart()
+			res = make([]string, len(ts))
+			for i := range res {
+				res[i] = "0"
+			}
+		}
+	}()
+	res = make([]string, len(ts))
+	tm0 := time.Now()
+	defer func() { s.durModel += time.Since(tm0) }()
 	for i, t := range ts {
 		if t.IsConst() {
 			res[i] = constString(t)
